@@ -79,6 +79,57 @@ MUTANTS = [
 ''', '''            self.extract_tokens(text),
             key=lambda m: (m.start, -m.end, hash(m.data + str(m.groups))),
 ''')]),
+    ("c15-lock-order-inversion", "C15", [("eyecite/helpers.py",
+      "import logging\nfrom datetime import date\n", "import logging\nimport threading\nfrom datetime import date\n"),
+      ("eyecite/helpers.py",
+      '''def filter_citations(citations: List[CitationBase]) -> List[CitationBase]:
+''', '''filter_lock = threading.Lock()
+
+
+def filter_citations(citations: List[CitationBase]) -> List[CitationBase]:
+    """Serialise filtering (it logs overlap warnings) -- see _filter_citations."""
+    with filter_lock:
+        return _filter_citations(citations)
+
+
+def _filter_citations(citations: List[CitationBase]) -> List[CitationBase]:
+'''),
+      ("eyecite/find.py",
+      "import re\nfrom bisect import bisect_left, bisect_right\n", "import re\nimport threading\nfrom bisect import bisect_left, bisect_right\n"),
+      ("eyecite/find.py",
+      '''    citations = filter_citations(citations)
+
+    # Remove citations with multiple reporter candidates''', '''    with _reference_lock:
+        citations = filter_citations(citations)
+
+    # Remove citations with multiple reporter candidates'''),
+      ("eyecite/find.py",
+      '''    if len(document.plain_text) <= citation.span()[-1]:
+        return []
+    if not isinstance(citation, FullCaseCitation):
+        return []
+''', '''    if len(document.plain_text) <= citation.span()[-1]:
+        return []
+    if not isinstance(citation, FullCaseCitation):
+        return []
+    if citation.metadata.resolved_case_name_short and not document.markup_text:
+        # second pass of the two-step flow: callers run it from worker threads
+        # while other documents are being filtered
+        from eyecite.helpers import filter_lock
+
+        with filter_lock:
+            with _reference_lock:
+                return extract_pincited_reference_citations(
+                    citation, document.plain_text
+                )
+'''),
+      ("eyecite/find.py",
+      '''def get_citations(
+    plain_text: str = "",''', '''_reference_lock = threading.Lock()
+
+
+def get_citations(
+    plain_text: str = "",''')]),
     # ---- C14 ----------------------------------------------------------------
     ("c14-only-invalid-error", "C14", [("eyecite/tokenizers.py",
       "                    except hyperscan.error:\n", "                    except hyperscan.InvalidError:\n")]),
